@@ -191,7 +191,8 @@ func (env *Env) eval(e *Expr) *Val {
 	case ESel:
 		// package-qualified name?
 		if e.Args[0].Kind == EIdent {
-			if _, isVar := env.vars[e.Args[0].Name]; !isVar {
+			_, isOld := env.oldVars[e.Args[0].Name]
+			if _, isVar := env.vars[e.Args[0].Name]; !isVar && !isOld {
 				if env.frame == nil || env.frame.localByName(env.cur, e.Args[0].Name) == nil {
 					if p := env.lookupPkg(e.Args[0].Name); p != nil {
 						if v := env.lookupObj(p, e.Name); v != nil {
@@ -462,7 +463,7 @@ func (env *Env) evalCall(e *Expr) *Val {
 		if !ok {
 			efail("has() on non-map")
 		}
-		return mathBool(env.c.mapHas(env.cur, m.X, mt, k))
+		return mathBool(And(Neq(m.X, Num(0)), env.c.mapHas(env.cur, m.X, mt, k))) // a nil map has no entries
 	case "fresh": // fresh(x): x was allocated during this call
 		v := env.eval(e.Args[0])
 		if env.old == nil {
@@ -616,7 +617,9 @@ func (env *Env) evalQuant(e *Expr) *Val {
 		var pt []*Term
 		for _, x := range p {
 			v := n.eval(x)
-			pt = append(pt, flatten(v)...)
+			for _, t := range flatten(v) {
+				pt = append(pt, cleanPattern(t))
+			}
 		}
 		pats = append(pats, pt)
 	}
@@ -835,4 +838,21 @@ func maxContains(t, x *Term) bool {
 		}
 	}
 	return false
+}
+
+// cleanPattern: triggers must be function applications; a boolean combination such as the one
+// produced by has(m,k) is reduced to the array read it contains.
+func cleanPattern(t *Term) *Term {
+	switch t.Op {
+	case "not":
+		return cleanPattern(t.Args[0])
+	case "and", "or", "=>", "=":
+		for i := len(t.Args) - 1; i >= 0; i-- {
+			c := cleanPattern(t.Args[i])
+			if c.Op == "select" || c.Op == "app" {
+				return c
+			}
+		}
+	}
+	return t
 }
